@@ -25,6 +25,13 @@ STATED = {"deviation_from_baseline": 0.02, "gradient_zero_crossing": 0.08, "fit_
           "fit_line_polynomial": 0.35, "fit_constant_line": 0.40, "frechet_direct_path": 0.45}
 
 
+#: the piecewise polynomial fits represent the quadratic models (cone, pyramid: F ~ delta^2) exactly: the stated
+#: fraction for those is one percent of the curve length plus one sample (0.005 = one sample of the shortest grid
+#: curve is the worst case observed over the whole grid, long recordings included)
+STATED_EXACT = {(m, mk): 0.01 for m in ("fit_constant_polynomial", "fit_line_polynomial")
+                for mk in ("hertz_cone", "hertz_pyr3s")}
+
+
 #: kinds of arrays "with a baseline followed by an indentation" (invariance is asserted for these; the
 #: degenerate kinds only have to give a valid index / the fallback without an exception)
 WITH_BASELINE = ("model-grid", "random-curve", "recorded", "dwell-approach-only", "dwell-with-retract")
@@ -65,6 +72,16 @@ def grid(tier):
                             continue
                         out.append({"kind": "model-grid", "model": mk, "n": n, "bf": bf, "depth": depth, "pidx": pidx,
                                     "retract": (k % 3 != 0)})
+    # long recordings (many thousand samples, early contact): the piecewise fits need their full number of
+    # function evaluations there
+    k = 0
+    for mk in ("hertz_cone", "hertz_pyr3s", "hertz_para"):
+        for n, bf in ((8000, 0.2), (12000, 0.25), (8000, 0.3), (6500, 0.25)):
+            k += 1
+            if tier == "quick" and k % 3 != 1:
+                continue
+            out.append({"kind": "model-grid", "model": mk, "n": n, "bf": bf, "depth": 1.2e-6, "pidx": 0,
+                        "retract": False, "long": True})
     return out
 
 
@@ -264,10 +281,13 @@ def judge(ctx, meta, force, results, truth=None):
                               f"changes ({t['ydiff']}) under a power-of-two factor", rep2)
         if truth is not None and not isinstance(res, str):
             frac = abs(res - truth) / meta["n"]
-            if frac > STATED[m]:
+            stated = STATED[m]
+            if (m, meta.get("model")) in STATED_EXACT:
+                stated = STATED_EXACT[(m, meta.get("model"))] + 1.0 / meta["n"]
+            if frac > stated:
                 ctx.violation(f"inaccurate:{m}", f"{m}: estimate {res} is {frac:.3f} of the curve length away from the "
                               f"true contact {truth} on a noise-free {meta.get('model')} curve (stated: "
-                              f"{STATED[m]})", {**rep, "expected": truth, "observed": res})
+                              f"{stated:.4f})", {**rep, "expected": truth, "observed": res})
 
 
 def quantise(force, bits=20):
